@@ -67,6 +67,7 @@ func (in *Interp) resetPath(prefix []int) {
 	in.depth = 0
 	in.curFrame = nil
 	in.Effects = nil
+	in.work, in.WorkMax = 0, 0
 	in.SharedWrites = nil
 	in.sched = nil
 	in.GoroutinesStarted = 0
@@ -113,6 +114,8 @@ func (in *Interp) runPath(fn *ssa.Function, prefix []int, model map[string]Model
 				} else {
 					h.noteInconclusive("unwind: " + e.Msg)
 				}
+			case "work":
+				in.recordViolation("work", "unmetered-work", e.Msg, nil)
 			case "unsupported":
 				h.Unsupported[e.Msg]++
 			case "diverged":
@@ -188,6 +191,28 @@ func (in *Interp) recordViolation(kind, label, msg string, extra *Term) *Violati
 		in.Solver.Assert(extra)
 	}
 	r := in.Solver.Check()
+	if r == Sat && kind == "work" {
+		// the native confirmation of unmetered work is a run that does not
+		// finish: prefer a model with large 64-bit inputs
+		for _, nd := range in.nondets {
+			if nd.S.K != SBV || nd.S.W != 64 {
+				continue
+			}
+			for _, sh := range []uint{61, 40, 32} {
+				c := BVCmp(OpBVSle, BVConst(uint64(1)<<sh, 64), nd)
+				in.Solver.Push()
+				in.Solver.Assert(c)
+				if in.Solver.Check() == Sat {
+					// keep (the push stays until the outer Pop... emulate by re-asserting)
+					in.Solver.Pop()
+					in.Solver.Assert(c)
+					break
+				}
+				in.Solver.Pop()
+			}
+		}
+		r = in.Solver.Check()
+	}
 	if r == Sat {
 		m, err := in.Solver.GetValues(in.nondets)
 		if err != nil {
@@ -513,6 +538,13 @@ func registerHarnessIntrinsics(in *Interp, pkgPath string) {
 		}
 		in.sched.quiesce()
 		return BVConst(uint64(in.sched.live()), 64)
+	})
+	reg("verifWorkMax", func(in *Interp, fr *Frame, a []V) V {
+		w := in.WorkMax
+		if in.work > w {
+			w = in.work
+		}
+		return BVConst(uint64(w), 64)
 	})
 	reg("verifEffects", func(in *Interp, fr *Frame, a []V) V {
 		return BVConst(uint64(len(in.Effects)), 64)
